@@ -8,7 +8,7 @@
    is).  Node names, pod uids and pod namespace/name keys are Z ranks (0 = empty node name). *)
 From Coq Require Import List ZArith Bool.
 From Coq Require String.
-From Verif Require Import Gen.Gen_consts Gen.Gen_funcs Lib.SortX.
+From Verif Require Import Gen.Gen_consts Gen.Gen_funcs Gen.Gen_loadaware Lib.SortX.
 Import ListNotations.
 Open Scope Z_scope.
 
@@ -116,9 +116,8 @@ Definition cls_of_prio (p : Z) : cls :=
 Definition is_prod (p : pod) : bool :=
   match cls_of_prio (p_prio p) with CProd => true | _ => false end.
 
-(* default_estimator.go:22-24 *)
-Definition DefaultMilliCPURequest : Z := 250.
-Definition DefaultMemoryRequest : Z := 200 * 1024 * 1024.
+(* DefaultMilliCPURequest / DefaultMemoryRequest (default_estimator.go:35-38) are generated from
+   the source into Gen.Gen_loadaware *)
 Definition est_defaults : vec := [DefaultMilliCPURequest; DefaultMemoryRequest].
 
 (* estimatedUsedByResource after TranslateResourceNameByPriorityClass: free pods have no
